@@ -175,3 +175,31 @@ func Sign(x int) int {
 	}
 	return 0
 }
+
+// LongRunStrings: version parts with letter runs and digit runs of 7..17 characters (word-at-a-time comparison widths
+// and their neighbours), continued by every class of character, and the same parts cut short before the run ends and
+// continued differently - so that every (run length, position of the first difference inside the run, class of the
+// differing characters) combination occurs in some pair.
+func LongRunStrings() []string {
+	letters, digits := "abcdefghijklmnopqrstuvwxyz", "2023051215301234567"
+	tails := []string{"", "a", "z", "A", "1", "0", "+", ".", "-", "~", ":", "+esm1", "three", "~rc1"}
+	var out []string
+	for _, n := range []int{7, 8, 9, 15, 16, 17} {
+		for _, m := range []int{n, n - 1, n - 3, 4} {
+			for _, t := range tails {
+				out = append(out, "1"+letters[:m]+t, "1."+digits[:m]+t, "1"+letters[:m]+t+"."+digits[:n], letters[:1]+digits[:m]+t)
+			}
+		}
+		// two runs of the same length that differ at one position only / at two positions with opposite signs
+		for _, pos := range []int{0, 1, n / 2, n - 2, n - 1} {
+			l, d := []byte(letters[:n]), []byte(digits[:n])
+			l[pos], d[pos] = 'b'+byte(pos%20), '9'
+			out = append(out, "1"+string(l), "1."+string(d))
+			if pos+1 < n {
+				l[pos+1], d[pos+1] = 'a', '0'
+				out = append(out, "1"+string(l), "1."+string(d))
+			}
+		}
+	}
+	return Dedup(out)
+}
